@@ -7,6 +7,7 @@ import (
 	"strings"
 	"testing"
 
+	"github.com/xinchentechnote/fin-protoc/verifharness/cli"
 	"github.com/xinchentechnote/fin-protoc/verifharness/dsl"
 	"github.com/xinchentechnote/fin-protoc/verifharness/pbt"
 	"github.com/xinchentechnote/fin-protoc/verifharness/xlang"
@@ -184,9 +185,17 @@ func runXPropWith(t *testing.T, xp xProp, post func(rt *rapid.T, k *xCase)) {
 		}
 		k.Langs = ok
 		k.Tests = xp.tests
-		if xp.viaCLI && rapid.IntRange(0, 3).Draw(rt, "via_cli") == 0 {
+		viaRate := 5
+		if xp.viaCLI {
+			viaRate = 3
+		}
+		if cli.Bin() != "" && rapid.IntRange(0, viaRate).Draw(rt, "via_cli") == 0 {
 			k.ViaCLI = true
 			c.Class("files-written-by-cli-into-stale-directories")
+		}
+		if rapid.IntRange(0, 2).Draw(rt, "all_generators") == 0 {
+			k.AllGens = true
+			c.Class("all-six-generators-over-one-model")
 		}
 		if post != nil {
 			post(rt, &k)
